@@ -184,7 +184,7 @@ def judge(cfg, cache, scripts):
     tr = instrument.Trace()
     with vmrun.Env(cfg) as env:
         F = env.F
-        with instrument.Instrumented(tr):
+        with instrument.Instrumented(tr, auto_main=True):
             try:
                 v = F.run_auth_scripts(list(scripts), copy.deepcopy(cache), env.contracts(), env.plugins(), cfg.max_items, cfg.max_item_size, cfg.call_limit)
             except BaseException as e:
